@@ -10,6 +10,8 @@
 (*  codecs  - Runtimes 1 and 2 of one process; 2 is customised (any media,    *)
 (*            any number of times) while 1 keeps exchanging: the codec used   *)
 (*            by 1 stays the standard one.                                    *)
+(*  defaults- a multi array with / without a declared default x supplied     *)
+(*            lists of up to 3 items over {"", "a"}: a supplied list arrives. *)
 EXTENDS RoundTrip
 
 VARIABLES track, tmpl, vals, order, kvs, tables, n
@@ -50,11 +52,20 @@ Customise ==      \* the application customises Runtime 2
   /\ n' = n + 1
   /\ UNCHANGED <<tmpl, vals, order, kvs>>
 
-Next == Subst \/ AuthKey \/ Customise
+\* kvs doubles as the supplied list (its v fields), tmpl as the declared default
+Items == { <<>>, <<97>> }
+Defaults ==
+  /\ track = "start" /\ track' = "defaults"
+  /\ \E d \in {<<>>, << <<>> >>, << << <<120>>, <<121>> >> >>, << << <<>> >> >>}, k \in 0..3 : \E l \in [1..k -> Items] :
+       tmpl' = d /\ kvs' = [i \in 1..k |-> [k |-> K, v |-> l[i]]]
+  /\ UNCHANGED <<vals, order, tables, n>>
+
+Next == Subst \/ AuthKey \/ Customise \/ Defaults
 Spec == Init /\ [][Next]_vars
 
 SubstAgreesMC == track = "subst" => SubstAgrees(tmpl, vals, NB, order)
 KeyParamBoundMC == track = "authkey" =>
    BindFormValue("scalar", ValuesOf(AfterAuthorize(kvs, K), K)) = BindFormValue("scalar", ValuesOf(kvs, K))
+MultiAgreesMC == track = "defaults" => MultiAgrees(tmpl, [i \in 1..Len(kvs) |-> kvs[i].v])
 OwnCodecsMC == \A m \in Media : CodecOf(tables, 1, m) = "standard"
 =============================================================================
